@@ -78,7 +78,17 @@ fn history<const D: usize>(hid: usize, rng: &mut Rng, out: &mut Out, steps: usiz
     let Some(mut w): Option<World<D>> = hist::start_built_with::<D>(&ps.pts, 1, &tri::Opts { order: 3, dedup, simplex: 0, retry: 0 }, rng) else { return };
     probes(&mut w, hid, 0, "build", rng, out, budget);
     for s in 1..=steps {
-        let op = match rng.below(11) {
+        let op = match rng.below(12) {
+            11 => {
+                // a vertex whose coordinates the 1e-10 hash grid cannot key (|c| / 1e-10 >= 2^53):
+                // the duplicate check must fall back to the linear scan for it
+                let mut p = [0.0f64; D];
+                for x in p.iter_mut() { *x = rng.range(-4, 4) as f64; }
+                let ax = rng.below(D as u64) as usize;
+                p[ax] = [1.0e6, -2.0e6, 1099511627776.0, 1.0e15][rng.below(4) as usize] + rng.range(0, 3) as f64;
+                let _ = w.do_insert(p, false, rng);
+                "insert_far"
+            }
             9 | 10 if !w.removed.is_empty() => {
                 // a vertex comes back at EXACTLY a former position: the grid bucket there holds the
                 // stale key of the removed vertex next to the live one
